@@ -8,6 +8,10 @@ fn usage() -> ! {
     std::process::exit(2);
 }
 
+fn crate_crash(v: &resolvo_sim::props::Verdict) -> bool {
+    v.violation.is_some()
+}
+
 fn env_u64(name: &str) -> Option<u64> {
     std::env::var(name).ok().and_then(|s| s.trim().parse().ok())
 }
@@ -93,7 +97,34 @@ fn main() {
                 println!("replay: 12 fresh processes agree on this scenario");
                 std::process::exit(0);
             }
+            // watchdog: a scenario that hangs the process is a violation of its own (hard-crash class)
+            {
+                let prop_id = rf.property.clone();
+                let path = args[2].clone();
+                let class = rf.class.clone();
+                std::thread::spawn(move || {
+                    std::thread::sleep(Duration::from_secs(60));
+                    println!("VIOLATION property={prop_id} replay={path}");
+                    println!("  class={class}");
+                    println!("  the scenario did not finish within 60 s of wall time (hang)");
+                    std::process::exit(1);
+                });
+            }
             let v = prop.judge(&rf.scenario);
+            if rf.class == "hard-crash" {
+                // the stored run killed or hung its worker; finishing normally means it no longer does
+                match crate_crash(&v) {
+                    true => {
+                        println!("VIOLATION property={} replay={}", rf.property, args[2]);
+                        println!("  class=hard-crash (now reported in-process: {:?})", v.violation);
+                        std::process::exit(1);
+                    }
+                    false => {
+                        println!("replay: scenario finishes normally now; result: {}", v.summary);
+                        std::process::exit(0);
+                    }
+                }
+            }
             match v.violation {
                 Some((c, d)) if c == rf.class => {
                     println!("VIOLATION property={} replay={}", rf.property, args[2]);
